@@ -12,8 +12,9 @@ import (
 )
 
 // Worker entry point:
-//   sim run -prop C01 -seed 100 -n 50 -budget 60 -tier quick -known /verif/known_findings.jsonl -out result.json
-//   sim replay -file replay.json
+//
+//	sim run -prop C01 -seed 100 -n 50 -budget 60 -tier quick -known /verif/known_findings.jsonl -out result.json
+//	sim replay -file replay.json
 func Main(args []string) int {
 	if len(args) == 0 {
 		fmt.Fprintln(os.Stderr, "usage: sim run|replay ...")
@@ -93,6 +94,7 @@ func cmdRun(args []string) int {
 		res.Seeds = append(res.Seeds, seed)
 		simrt.MaxPreemptSeen = 0
 		lastGenOps = 0
+		wideValues = false
 		if os.Getenv("VERIF_PROGRESS") != "" {
 			fmt.Println("SEED", seed) // progress marker: lets the driver attribute a fatal runtime error
 		}
